@@ -142,17 +142,38 @@ def reader_scope_table(prog, sl):
 
 
 def writer_suffix_table(prog, sl):
-    """{Variant: '.suffix'} from the match feeding OsString::push in write_to_env_dir"""
+    """{Variant: '.suffix'} from the match feeding OsString::push in write_to_env_dir.
+    info['name_parts']: the symbolic concatenation that forms the file name: base value + pushed values in
+    program order, each rendered as NAME (the map key's variable name), SUFFIX (the per-behaviour constant) or text"""
     f = prog.fn(W_DIR)
     rows = {}
     push = [c for c in f.calls if c.name == 'std::ffi::OsString::push']
     info = {'push_calls': len(push)}
+    rpo = f._rpo()
+    push.sort(key=lambda c: rpo.index(c.bb) if c.bb in rpo else 10 ** 6)
+    parts = []
+    suffix_pushes = 0
+
+    def sym(v):
+        v = strip(v)
+        coll, proj = loop_element(v)
+        if coll is not None and self_field(f, coll) == 'entries' and proj == ('0', '1'):
+            return 'NAME'
+        if v[0] == 'call' and v[1] in ('std::ffi::OsString::new', 'std::ffi::OsString::with_capacity'):
+            return None
+        return vstr(v)[:50]
     for c in push:
         loc = phi_local_of(f, c.args[1])
+        if not parts:
+            base = sym(sl.operand(f, c.args[0]))
+            if base is not None:
+                parts.append(base)
+            info['receiver'] = op_place(c.args[0])
         if loc is None:
-            v = strip(sl.operand(f, c.args[1]))
-            info['single'] = vstr(v)
+            parts.append(sym(sl.operand(f, c.args[1])))
             continue
+        suffix_pushes += 1
+        parts.append('SUFFIX')
         for bi, v, conds in arm_defs(f, loc, sl):
             var = [cd for cd in conds if cd.kind == 'variant' and cd.enum == MB]
             if var and v[0] == 'const' and len(var[-1].outcome) == 1:
@@ -160,6 +181,8 @@ def writer_suffix_table(prog, sl):
             else:
                 info.setdefault('odd', []).append((vstr(v), [repr(x) for x in var]))
         info['push_call'] = c
+    info['name_parts'] = parts
+    info['suffix_pushes'] = suffix_pushes
     return f, rows, info
 
 
